@@ -153,7 +153,7 @@ class TypedNode(Node):
         """Return true if this node has one or more children."""
         if kind is ANY_KIND:
             return bool(self._children)
-        return len(self.get_children(kind)) > 1
+        return len(self.get_children(kind)) > 0
 
     def get_siblings(self, *, add_self=False, any_kind=False) -> list[TypedNode]:
         """Return a list of all sibling entries of self (excluding self) if any."""
